@@ -203,7 +203,7 @@ def admitted(c, v):
 
 # ---------------------------------------------------------------------------------------------
 
-SPELLINGS = ["inline", "named", "let-exemplar", "named-alias", "named-composed-left", "named-composed-right", "through-constrained-binding",
+SPELLINGS = ["inline", "named", "let-exemplar", "named-alias", "named-composed-left", "named-composed-right", "through-constrained-binding", "select-through-constrained-binding", "select-through-constrained-binding-2",
              "through-constrained-binding-2"]
 
 
@@ -268,6 +268,15 @@ def program(c, v, spelling):
         if len(own) <= i or v[0] == "expr":
             return None
         return PRELUDE + "let y :: %s = %s;\nlet x :: %s = y;\n" % (own[i], vs, cs)
+    if spelling.startswith("select-through-constrained-binding"):
+        # as above, but the value comes out of a select whose other arm has another shape: the checker then knows a set of
+        # candidates, not one shape, and what the first constraint leaves of it must not decide what the second admits
+        own = own_constraints(v)
+        i = 1 if spelling.endswith("-2") else 0
+        if len(own) <= i or v[0] == "expr":
+            return None
+        other = '"other"' if v[0] != "str" else "0"
+        return PRELUDE + "let mode = \"a\";\nlet y :: %s = select (mode, %s) => {a = %s};\nlet x :: %s = y;\n" % (own[i], other, vs, cs)
     raise ValueError(spelling)
 
 
